@@ -1,0 +1,37 @@
+//! Verification seams, compiled only under `--cfg rusty_paseto_verif` (never in a normal build).
+//!
+//! Two sources of nondeterminism sit inside the library: the system RNG behind
+//! `Key::try_new_random` and the wall clock behind the default claims / default validators.
+//! A harness may install a per-thread RNG tap (observe or overwrite each draw) and a per-thread
+//! frozen clock. With nothing installed both hooks are the identity.
+use std::cell::{Cell, RefCell};
+
+type RngTap = Box<dyn FnMut(&mut [u8])>;
+
+thread_local! {
+  static RNG_TAP: RefCell<Option<RngTap>> = RefCell::new(None);
+  static FROZEN_NOW: Cell<Option<time::OffsetDateTime>> = Cell::new(None);
+}
+
+/// Installs (or removes) the tap that is handed every buffer filled by `Key::try_new_random`,
+/// after the real RNG has filled it.
+pub fn set_rng_tap(tap: Option<RngTap>) {
+  RNG_TAP.with(|t| *t.borrow_mut() = tap);
+}
+
+/// Freezes (or releases) the clock seen by the default claims and default validators.
+pub fn set_now(now: Option<time::OffsetDateTime>) {
+  FROZEN_NOW.with(|n| n.set(now));
+}
+
+pub(crate) fn rng_tap(buf: &mut [u8]) {
+  RNG_TAP.with(|t| {
+    if let Some(tap) = t.borrow_mut().as_mut() {
+      tap(buf)
+    }
+  });
+}
+
+pub(crate) fn now(real: time::OffsetDateTime) -> time::OffsetDateTime {
+  FROZEN_NOW.with(|n| n.get()).unwrap_or(real)
+}
